@@ -756,3 +756,133 @@ Proof.
       destruct (defragment rs) as [l'|]; [|reflexivity].
       destruct DS as (_ & _ & D3). specialize (D3 i). lia.
 Qed.
+
+(* ------------------------------------------------------------ IndividualFields *)
+Lemma each_spec d : forall n fuel s index fe, fe - index = Z.of_nat n -> (length s < fuel)%nat ->
+  match each_field fuel d index fe s with
+  | EachEnd ps => (length (split_fields d s) <= n)%nat /\ ps = split_fields d s
+  | EachUpTo i s' ps => i = fe /\ (n < length (split_fields d s))%nat /\
+                        split_fields d s' = skipn n (split_fields d s) /\ (length s' <= length s)%nat /\
+                        ps = firstn n (split_fields d s)
+  | EachFuel => False
+  end.
+Proof.
+  induction n as [|n IH]; intros fuel s index fe E L.
+  - destruct fuel as [|f]; [lia|]. cbn [each_field]. destruct (index <? fe) eqn:C; [lia|].
+    pose proof (split_fields_nonempty d s) as NE. destruct (split_fields d s) eqn:S; [contradiction|].
+    repeat split; [lia|simpl; lia|lia].
+  - destruct fuel as [|f]; [lia|]. cbn [each_field]. destruct (index <? fe) eqn:C; [|lia].
+    pose proof (find_delim_split d s) as FS. destruct (find_delim d s) as [fld [r|]].
+    + destruct FS as [FS Lr]. specialize (IH f r (index + 1) fe ltac:(lia) ltac:(lia)).
+      destruct (each_field f d (index + 1) fe r) as [ps|i s' ps|].
+      * destruct IH as [A B]. rewrite FS. split; [simpl; lia|]. rewrite B. reflexivity.
+      * destruct IH as (A & B & C' & D & P). rewrite FS. repeat split; [exact A|simpl; lia|exact C'|lia|].
+        rewrite P. reflexivity.
+      * exact IH.
+    + rewrite FS. split; [simpl; lia|reflexivity].
+Qed.
+
+Definition indiv_from (fs : list (list Z)) (off : Z) (rs : list range) : list (list Z) :=
+  concat (map (select_from fs off) rs).
+
+Lemma indiv_from_all_empty fs off : forall rs lo, canonical_from lo rs -> 0 <= lo - off ->
+  (length fs <= Z.to_nat (lo - off))%nat -> indiv_from fs off rs = [].
+Proof.
+  induction rs as [|[b e] rest IH]; intros lo C P L; [reflexivity|].
+  simpl in C. destruct C as (C1 & C2 & C3 & C4).
+  unfold indiv_from. cbn [map concat]. rewrite select_from_empty by (simpl; lia). cbn [app].
+  apply (IH (e + 1)); [exact C4|lia|lia].
+Qed.
+
+Lemma indiv_from_shift fs off k : forall rs lo, canonical_from lo rs -> 0 <= k -> off + k <= lo -> 0 <= off ->
+  indiv_from (skipn (Z.to_nat k) fs) (off + k) rs = indiv_from fs off rs.
+Proof.
+  induction rs as [|[b e] rest IH]; intros lo C K L O; [reflexivity|].
+  simpl in C. destruct C as (C1 & C2 & C3 & C4).
+  unfold indiv_from in *. cbn [map concat]. rewrite select_from_shift by (simpl; lia).
+  rewrite (IH (e + 1)) by (assumption || lia). reflexivity.
+Qed.
+
+Lemma indiv_loop_spec d : forall rs index s fuel, canonical_from index rs -> 0 <= index -> (length s < fuel)%nat ->
+  Z.of_nat (length (split_fields d s)) + index <= kInfiniteEnd ->
+  individual_fields_loop fuel d rs index s = IOk (indiv_from (split_fields d s) index rs).
+Proof.
+  induction rs as [|[fb fe] rest IH]; intros index s fuel C P L SMALL; [reflexivity|].
+  pose proof C as C0. simpl in C. destruct C as (C1 & C2 & C3 & C4).
+  cbn [individual_fields_loop].
+  pose proof (skip_spec d (Z.to_nat (fb - index)) fuel s index fb ltac:(lia) L) as SK.
+  assert (canonical_from fb ((fb, fe) :: rest)) as Cfb by (cbn [canonical_from]; repeat split; (lia || assumption)).
+  destruct (skip_fields fuel d index fb s) as [i s1| |]; [|
+    rewrite (indiv_from_all_empty _ index _ fb Cfb) by lia; reflexivity | contradiction].
+  destruct SK as (-> & SK1 & SK2 & SK3).
+  set (fs := split_fields d s) in *. set (n := Z.to_nat (fb - index)) in *.
+  pose proof (each_spec d (Z.to_nat (fe - fb)) fuel s1 fb fe ltac:(lia) ltac:(lia)) as EK.
+  set (m := Z.to_nat (fe - fb)) in *.
+  assert (select_from fs index (fb, fe) = firstn m (skipn n fs)) as SEL.
+  { unfold select_from. cbn [fst snd]. fold n. destruct (fe =? kInfiniteEnd) eqn:X; [|reflexivity].
+    apply Z.eqb_eq in X. rewrite firstn_all2; [reflexivity|]. rewrite skipn_length. lia. }
+  destruct (each_field fuel d fb fe s1) as [ps|i s2 ps|].
+  - destruct EK as [E1 E2]. rewrite SK2 in E1, E2.
+    unfold indiv_from. cbn [map concat]. rewrite SEL, firstn_all2 by exact E1. rewrite <- E2.
+    assert (indiv_from fs index rest = []) as Z0.
+    { apply (indiv_from_all_empty fs index rest (fe + 1) C4); [lia|]. rewrite skipn_length in E1. lia. }
+    unfold indiv_from in Z0. rewrite Z0, app_nil_r. reflexivity.
+  - destruct EK as (-> & E1 & E2 & E3 & E4). rewrite SK2 in E1, E2, E4.
+    assert (Z.of_nat (length (split_fields d s2)) + fe <= kInfiniteEnd) as SM2.
+    { rewrite E2, !skipn_length. lia. }
+    rewrite (IH fe s2 fuel (canonical_from_weaken rest (fe + 1) fe ltac:(lia) C4) ltac:(lia) ltac:(lia) SM2).
+    f_equal. unfold indiv_from at 2. cbn [map concat]. rewrite SEL, <- E4. f_equal.
+    rewrite E2, skipn_skipn. replace (m + n)%nat with (Z.to_nat (fe - index)) by lia.
+    pose proof (indiv_from_shift fs index (fe - index) rest (fe + 1) C4 ltac:(lia) ltac:(lia) P) as SH.
+    replace (index + (fe - index)) with fe in SH by lia. exact SH.
+  - contradiction.
+Qed.
+
+(* every selected existing field is handed to the callback by itself, in order
+   (a line with 2^32-1 or more fields, i.e. of at least 4 GiB, is outside: `index` is an unsigned int) *)
+Theorem individual_fields_spec_proof line rs d : canonical rs ->
+  Z.of_nat (length (split_fields d line)) <= kInfiniteEnd ->
+  individual_fields line rs d = IOk (spec_individual d line rs).
+Proof.
+  intros C S. unfold individual_fields, spec_individual, select, select_range.
+  apply (indiv_loop_spec d rs 0 line); [exact C|lia|lia|lia].
+Qed.
+
+(* ------------------------------------------------------------ the tools on top *)
+(* dedupe's whole-line shortcut (key_fields = [0, inf)) computes the same key as the field path *)
+Theorem dedupe_shortcut_consistent_proof line d :
+  dedupe_key line [(0, kInfiniteEnd)] d = key_of dedupe_field_seed line [(0, kInfiniteEnd)] d /\
+  dedupe_key line [(0, kInfiniteEnd)] d = Some (murmur64a line 1).
+Proof.
+  assert (canonical [(0, kInfiniteEnd)]) as C by (unfold canonical; cbn [canonical_from]; unfold kInfiniteEnd; lia).
+  rewrite (key_of_spec_proof dedupe_field_seed line _ d C).
+  unfold dedupe_key. rewrite Z.eqb_refl. unfold dedupe_line_key.
+  assert (spec_pieces d line [(0, kInfiniteEnd)] = [line]) as SP.
+  { unfold spec_pieces, select, select_range, select_from. cbn [map fst snd]. rewrite Z.eqb_refl.
+    change (Z.to_nat (0 - 0)) with 0%nat. cbn [skipn].
+    pose proof (split_fields_nonempty d line) as NE. destruct (split_fields d line) eqn:S; [contradiction|].
+    cbn [filter map]. rewrite <- S, join_split. reflexivity. }
+  rewrite SP. split; reflexivity.
+Qed.
+
+(* the default -f / -k of the tools select the whole line *)
+Theorem default_key_specs_proof :
+  parse_key_spec dedupe_default_fields = Some [(0, kInfiniteEnd)] /\
+  parse_key_spec shard_default_fields = Some [(0, kInfiniteEnd)] /\
+  parse_key_spec cache_default_key = Some [(0, kInfiniteEnd)] /\
+  dedupe_default_delim = 9 /\ shard_default_delim = 9 /\ cache_default_separator = 9.
+Proof. vm_compute. repeat split. Qed.
+
+(* -f LIST end to end: an accepted list gives keys that agree exactly on the selected fields *)
+Theorem tool_key_depends_only_on_selected_proof s rs seed d l1 l2 : nonul s -> parse_key_spec s = Some rs ->
+  contains_all (Z.of_nat (length (split_fields d l1))) rs ->
+  contains_all (Z.of_nat (length (split_fields d l2))) rs ->
+  exists p1 p2, key_of seed l1 rs d = Some (hash_fold seed p1) /\ key_of seed l2 rs d = Some (hash_fold seed p2) /\
+                (p1 = p2 <-> select (split_fields d l1) rs = select (split_fields d l2) rs).
+Proof.
+  intros N PK A1 A2. destruct (parse_key_spec_proof s rs N PK) as (rs0 & _ & _ & C & _).
+  exists (spec_pieces d l1 rs), (spec_pieces d l2 rs).
+  split; [apply key_of_spec_proof; exact C|]. split; [apply key_of_spec_proof; exact C|].
+  pose proof (key_iff_selected_proof d l1 l2 rs C A1 A2) as K.
+  rewrite !range_fields_spec_proof in K by exact C. rewrite <- K. split; [intros ->; reflexivity|intros E; injection E; auto].
+Qed.
